@@ -556,6 +556,7 @@ func TestC23(t *testing.T) {
 		}
 	}
 
+	tw.NewChunk()
 	s := newC23Server()
 	defer s.close()
 	// stream 2: the gate itself, every constant in every state
@@ -579,7 +580,8 @@ func TestC23(t *testing.T) {
 			res.Cover("gate")
 		}
 	}
-	// stream 3: every entry point in every state
+	// stream 3: every entry point in every state (own chunk: own TLC verdict)
+	tw.NewChunk()
 	order := append([]string(nil), c23States...)
 	if behav.Seed()%2 == 1 {
 		order = []string{"RESIZING", "DEGRADED", "NORMAL", "STARTING"}
